@@ -16,8 +16,8 @@ PID = "C17"
 INNER = {0: ["", "A", "AA"], 1: ["V", "AV", "VA", "AVA"], 2: ["VV", "AVV", "VAV", "AVAVA"]}
 OPNAME = {"next": "next", "compute": "compute", "list": "list_of_generator", "take": "take_first", "start": "start"}
 TIERS = {
-    "quick": dict(DEPTH="4", MAXLEN="4", MAXLENG="3", MAXK="2", TAKEMAX="6", MAXCONS="2", EXTRA="2"),
-    "thorough": dict(DEPTH="5", MAXLEN="5", MAXLENG="4", MAXK="2", TAKEMAX="6", MAXCONS="2", EXTRA="1"),
+    "quick": dict(DEPTHK="2", DEPTH="4", MAXLEN="4", MAXLENG="3", MAXK="2", TAKEMAX="6", MAXCONS="2", EXTRA="2"),
+    "thorough": dict(DEPTHK="3", DEPTH="5", MAXLEN="5", MAXLENG="4", MAXK="2", TAKEMAX="6", MAXCONS="2", EXTRA="1"),
 }
 
 
@@ -33,13 +33,18 @@ def expand(hs, tier):
             if tier == "quick":
                 shapes = [shapes[i % len(shapes)], shapes[(i + 1) % len(shapes)]]
             for s in shapes:
-                cases.append({"body": body, "k": h["k"], "inner": s, "h": h["h"]})
+                cases.append({"kind": h["kind"], "body": body, "k": h["k"], "inner": s, "h": h["h"]})
         else:
-            cases.append({"body": body, "k": 0, "inner": "", "h": h["h"]})
+            cases.append({"kind": h["kind"], "body": body, "k": 0, "inner": "", "h": h["h"]})
     return cases
 
 
 def trigger_of(case, j):
+    t = trigger0(case, j)
+    return t if case.get("kind", "int") == "int" else "%s@%s" % (t, case["kind"])      # what the Values carry
+
+
+def trigger0(case, j):
     o = case["h"][j]
     if o["op"] in ("next", "compute") and any(x["op"] == "start" for x in case["h"][:j]) and \
             not any(x["op"] == "compute" for x in case["h"][max(i for i in range(j) if case["h"][i]["op"] == "start"):j]):
@@ -92,6 +97,9 @@ def main():
             raise MachineryError(alarm + " on AsyncGen.tla but the real generators follow every prescribed history: the model is wrong\n" + res.out[-2000:])
         if alarm:
             print("note: %s on the model" % alarm)
+        kinds = {}
+        for c in cases:
+            kinds[c["kind"]] = kinds.get(c["kind"], 0) + 1
         sigs = {}
         for cl, tr, _ in verdict.violations:
             sigs["%s/%s" % (cl, tr)] = sigs.get("%s/%s" % (cl, tr), 0) + 1
@@ -107,7 +115,7 @@ def main():
             "history_depth": int(env["DEPTH"]), "histories": len(hs), "replay_cases": len(cases), "bodies": len(bodies),
             "body_list": bodies[:200], "take_first_n": takes, "histories_with_two_take_first": twice,
             "histories_with_started_future": started, "next_issued_while_started": started_next,
-            "inner_shapes": INNER, "builds": list(builds), "bounds": env,
+            "inner_shapes": INNER, "payload_kinds": kinds, "builds": list(builds), "bounds": env,
             "model_invariants": ["InOrder", "NothingLost", "OnlyValues", "StartedIsUncomputed", "TakeNoMore", "StopForEver", "EarlyAdvance"],
             "model_ok": res.ok, "mismatching_histories": nmis, "violation_signatures": sigs,
             "evaluations": total, "distinct_nontrivial": nontriv,
@@ -126,6 +134,8 @@ def main():
                                            "the body's step counter is read after take_first/list_of_generator only; <= the prescribed maximum is accepted",
                                            "a started-but-uncomputed future is realised by yielding it together with a sibling task while the body awaits a batch item; "
                                            "the sibling issues the history's next() calls; only textual awaits (not inner-generator tasks) are started this way",
+                                           "Values carrying something else than distinct ints (None, always-equal objects, objects whose == raises or has no truth value, "
+                                           "one object every time, END_OF_GENERATOR look-alikes) are explored to depth %s; results are compared by identity" % env["DEPTHK"],
                                            "TLC and the replay harness are trusted"], tier_=tier)
         return rc
 
